@@ -52,7 +52,11 @@ def make_variant(base: Path, v: Dict[str, Any]) -> Optional[Path]:
     d = Path(tempfile.mkdtemp(prefix="sa-variant-", dir=os.environ.get("TMPDIR", "/tmp")))
     shutil.copytree(base / "eyecite", d / "eyecite", ignore=shutil.ignore_patterns("__pycache__"))
     try:
-        if "patch" in v:
+        if "gen" in v:
+            from .benign_gen import GENERATORS
+
+            GENERATORS[v["gen"]](d / "eyecite")
+        elif "patch" in v:
             p = subprocess.run(["patch", "-p1", "-s", "--no-backup-if-mismatch", "-i", str(VERIF / v["patch"])], cwd=d,
                                capture_output=True, text=True)
             if p.returncode != 0:
@@ -92,7 +96,7 @@ def run_selftest(ctx: Ctx, prop: str) -> Dict[str, Any]:
     from .mutants import VARIANTS
 
     base_fail = _failing(ctx)
-    todo = [v for v in VARIANTS if prop in v["props"]]
+    todo = [v for v in VARIANTS if prop in v["props"] or v["props"] == ["*"]]
     stats = {"variants": len(todo), "breaking_detected": 0, "benign_silent": 0, "skipped": 0, "details": []}
     problems = []
     import concurrent.futures as cf
